@@ -216,6 +216,19 @@ def _check_name_chain(ctx, G, steps, root, chain_txt, path, seen):
         if sid in seen:
             continue
         seen.add(sid)
+        # one load runs the factory once: no site between the cache and the factory sits in a loop
+        loop_ = next((a for a in ancestors(site) if a.get('kind') in ('ForStmt', 'WhileStmt', 'DoStmt', 'CXXForRangeStmt')), None)
+        if loop_ is not None and any(a is f for a in ancestors(loop_)):
+            lam_ = next((a for a in ancestors(site) if a.get('kind') == 'LambdaExpr'), None)
+            if lam_ is None or any(a is lam_ for a in ancestors(loop_)):
+                ctx.bad('C20-once', '%s reaches the factory once per load' % fname(k), site,
+                        'the step towards the factory (%s) sits inside a loop (%s): a single first load of a name can call the '
+                        'factory more than once for it' % ('the factory call' if last else _site_callee(site), pos(loop_)),
+                        construct='loop:%s' % fname(k), path=path)
+            else:
+                ctx.ok('C20-once', '%s reaches the factory once per load' % fname(k), site, 'not in a loop')
+        else:
+            ctx.ok('C20-once', '%s reaches the factory once per load' % fname(k), site, 'not in a loop')
         args = call_args(site)
         if site.get('kind') == 'CXXNewExpr':
             ce = [y for y in walk(site) if y.get('kind') == 'CXXConstructExpr']
